@@ -141,7 +141,16 @@ class Evaluator:
                 m = ci.find_method(fi.name)
                 if m is not None and m is not fi:
                     fi = m
-        return self._invoke(fi, args, dict(kwargs or {}), facts, depth=0)
+        v, f2 = self._invoke(fi, args, dict(kwargs or {}), facts, depth=0)
+        if facts is not None and facts.items and T.tag(v) == 'phi':
+            # alternatives that the caller's own assumptions exclude (a table look-up is a case analysis built as a value:
+            # no branch was taken, so nothing pruned it) do not belong to the result
+            known = set(facts.items)
+            try:
+                v = T.assume(v, known)
+            except T.BudgetExceeded:
+                pass
+        return v, f2
 
     def construct(self, clsqual, args=(), kwargs=None, facts=None):
         ci = self.p.get_class(clsqual)
